@@ -394,6 +394,7 @@ func (w *World) refillAmounts(n int) (int64, int64) {
 func (w *World) Apply(ctx sdk.Context, l *Ledger, op Op, fail func(a, s, d string)) (sdk.Context, string) {
 	a := w.App
 	out := "ok"
+	pre := w.midBlock(ctx, l)
 	switch op.A {
 	case "idle":
 	case "prune":
@@ -447,10 +448,35 @@ func (w *World) Apply(ctx sdk.Context, l *Ledger, op Op, fail func(a, s, d strin
 	default:
 		panic("unknown op " + op.A)
 	}
+	// the twap is built from END-of-block prices: nothing an action does may show in an answer before the
+	// block has ended (to-now queries from every observation time, both kinds, both directions)
+	if post := w.midBlock(ctx, l); post != pre {
+		fail("midblock.answers-unchanged-before-end-of-block", "action:"+op.A, fmt.Sprintf("to-now answers before the action: %s; after it, same block: %s", pre, post))
+	} else if pre != "" {
+		w.R.Vacuity["midblock_answer_sets_compared"]++
+	}
 	if op.Dt > 0 {
 		ctx = w.boundary(ctx, l, op.Dt, fail)
 	}
 	return ctx, out
+}
+
+// midBlock renders the to-now answers of both pools (on a throw-away branch of the live context).
+func (w *World) midBlock(ctx sdk.Context, l *Ledger) string {
+	var b strings.Builder
+	c, _ := ctx.CacheContext()
+	now := ms(ctx.BlockTime())
+	for pi := range w.Pools {
+		for _, sg := range l.H[pi].Segs {
+			for gi := 0; gi < 2; gi++ {
+				for d := 0; d < 2; d++ {
+					q := w.query(c, gi == 1, pi, d, sg.T, now)
+					fmt.Fprintf(&b, "%d/%d/%d/%d=%s;", pi, sg.T-ms(core.GenesisTime), gi, d, q)
+				}
+			}
+		}
+	}
+	return b.String()
 }
 
 // Alphabet: the list of symbols; swaps on the CL pool are only enabled while it has liquidity (a
